@@ -317,8 +317,12 @@ def check_foliation(case):
 
 
 def enum_connected(tier):
-    max_boxes = 4 if tier == "thorough" else 3
-    for dom, layers in small_diagrams(max_boxes, 2, 3):
+    import itertools
+    shapes = small_diagrams(4, 2, 3)
+    if tier == "thorough":
+        shapes = itertools.chain(shapes, (
+            x for x in small_diagrams(5, 2, 2) if len(x[1]) == 5))
+    for dom, layers in shapes:
         if len(layers) < 2 or not specs.connected(dom, layers):
             continue
         spec = {"cls": "monoidal", "dom": [["a", 0]] * dom, "layers": [
@@ -344,9 +348,9 @@ core.register("C06", [
           shards_quick=2, rule="foliate/foliation/flatten/depth on generated "
           "diagrams; non-trivial = some slice holds >= 2 boxes"),
     Facet("exhaustive", None, check_enum, enum=enum_connected,
-          shards_quick=4, rule="all connected diagrams with <= 3 (quick) / "
-          "<= 4 (thorough) boxes, arities <= 2, width <= 3, one wire type, "
-          "both directions; whole classes by BFS"),
+          shards_quick=16, rule="all connected diagrams with <= 4 boxes, "
+          "arities <= 2, width <= 3 (thorough: also 5 boxes, width <= 2), one "
+          "wire type, both directions; whole classes by BFS"),
 ], rule=RULE, assumptions=[
     "interchanger-equivalence classes are enumerated with the harness model "
     "O3, not with the library's interchange",
